@@ -134,6 +134,9 @@ PostRevision(op, cur, rev, u, p, n, amount) ==
      <<rev.fs = es.fs, "filesize rule">>,
      <<rev.cap = es.cap, "capacity rule">>,
      <<Le(rev.fs, rev.cap), "filesize exceeds capacity">>,
+     \* consensus (validateRevision) refuses a revision below the capacity of the contract it revises:
+     \* freed sectors stay paid-for capacity, an append into them leaves the capacity alone
+     <<Le(cur.cap, rev.cap), "revision decreases capacity">>,
      <<rev.ph = cur.ph /\ rev.eh = cur.eh, "revision moves the proof window">> >>
 
 \* failed revision: an error is justified only by insufficient funds, and nothing may have been charged
